@@ -6,9 +6,6 @@ import os
 from .common import Case
 from .gen import *
 
-# Set VERIF_C13_NOSKIP=1 to generate the inputs of the reported defect class as well.
-NOSKIP = bool(os.environ.get('VERIF_C13_NOSKIP'))
-
 NS = [1, 2, 3, 4, 8, 16]
 WIDE = [(1, 1), (2, 2), (3, 3), (4, 4), (8, 8), (16, 16), (1, 2), (2, 1), (1, 3), (3, 1), (2, 3), (3, 2),
         (2, 4), (4, 2), (3, 4), (4, 3), (1, 4), (4, 1), (1, 8), (8, 1), (4, 8), (8, 4), (3, 8), (8, 3),
@@ -258,11 +255,6 @@ def gen(tier, rng):
     for t in NS:
         for p in pats:
             v = p - (1 << 128) if p >= 1 << 127 else p
-            if t == 1 and not (smin(1) <= v <= smax(1)) and not NOSKIP:
-                # DEFECT: Int::<1>::from_i128(v) (and From<i128> in release builds) silently truncates a value
-                # that does not fit 64 bits (e.g. from_i128(1 << 64) == 0, from_i128(i128::MAX) == -1), whereas
-                # Uint::<1>::from_u128 asserts the limb count; the From impl only debug_asserts it.
-                continue
             add(Case('sint.from_i128', [to_limbs(p, 2), t], dbg=True))
             add(Case('sint.from_i128_trait', [to_limbs(p, 2), t], dbg=True))
     # ---- associated constants
